@@ -80,6 +80,8 @@ type Exec struct {
 	callOrd map[string]int
 	callIdxOf map[ssa.Instruction]int // ordinal of call per callee name in source order
 	preLoops map[*ssa.BasicBlock]*loopInfo
+	deferred []deferredCall
+	deferGuard map[*ssa.Defer]string
 	partialHavocs []partialHavoc
 	propRe *regexp.Regexp
 	subErrSites []string
@@ -1118,11 +1120,15 @@ func (ex *Exec) instr(in ssa.Instruction) {
 		h.set(dom, fmt.Sprintf("(store %s %s (store %s %s true))", h.get(dom), m.T, d0, k))
 	case *ssa.Defer:
 		ex.hasDefer = true
-		ex.noteUnsupported("defer")
-	case *ssa.RunDefers:
-		if ex.hasDefer || fnHasDefer(ex.fn) {
-			ex.havocAll("RunDefers")
+		// remember the deferred call with the argument values it was registered with
+		dc := deferredCall{instr: i, guard: g}
+		ex.deferred = append(ex.deferred, dc)
+		if ex.deferGuard == nil {
+			ex.deferGuard = map[*ssa.Defer]string{}
 		}
+		ex.deferGuard[i] = g
+	case *ssa.RunDefers:
+		ex.runDefers(i)
 	case *ssa.Go:
 		ex.noteUnsupported("go")
 	case *ssa.Send:
@@ -1140,6 +1146,69 @@ func (ex *Exec) instr(in ssa.Instruction) {
 		} else {
 			ex.noteUnsupported(fmt.Sprintf("%T", in))
 		}
+	}
+}
+
+type deferredCall struct {
+	instr *ssa.Defer
+	guard string
+}
+
+// runDefers models the function's deferred calls at an exit.  A deferred call of
+// a function that has a contract is applied as an ordinary call, conditionally on
+// the guard of the block that registered it (it ran on this path iff that block
+// was executed); deferred closures and contract-less callees havoc what they may
+// write (whole heap for closures).  Defer statements inside loops are outside the subset.
+func (ex *Exec) runDefers(rd *ssa.RunDefers) {
+	var ds []*ssa.Defer
+	for _, b := range ex.fn.Blocks {
+		for _, in := range b.Instrs {
+			if d, ok := in.(*ssa.Defer); ok {
+				ds = append(ds, d)
+			}
+		}
+	}
+	if len(ds) == 0 {
+		return
+	}
+	// reverse registration order (blocks are in source order for structured code)
+	for k := len(ds) - 1; k >= 0; k-- {
+		d := ds[k]
+		gD, seen := ex.deferGuard[d]
+		if !seen {
+			continue // registered on no path that reaches this exit (not yet executed in RPO)
+		}
+		if len(ex.inLoops[d.Block()]) > 0 {
+			ex.noteUnsupported("defer inside a loop")
+			ex.havocAll("RunDefers(loop)")
+			return
+		}
+		cal := d.Call.StaticCallee()
+		var fc *FuncContract
+		if cal != nil {
+			fc = ex.vc.ctx.cf.Funcs[cal.RelString(ex.vc.ctx.tpkg)]
+		}
+		if _, isClo := d.Call.Value.(*ssa.MakeClosure); isClo || cal == nil || d.Call.IsInvoke() {
+			ex.noteUnsupported("deferred closure")
+			ex.havocAll("RunDefers(closure)")
+			continue
+		}
+		before := ex.cur.heap
+		saveGuard := ex.cur.guard
+		// run the call under the registering block's guard
+		ex.cur = &blockState{heap: before.clone(), guard: fmt.Sprintf("(and %s %s)", saveGuard, gD), ghosts: ex.cur.ghosts}
+		if fc != nil {
+			var names []string
+			for _, p := range cal.Params {
+				names = append(names, p.Name())
+			}
+			ex.applyContract(nil, fc, cal.RelString(ex.vc.ctx.tpkg), names, ex.argTVs(&d.Call), cal.Signature, d)
+		} else {
+			ex.havocCallee("deferred "+cal.RelString(ex.vc.ctx.tpkg), cal)
+		}
+		after := ex.cur.heap
+		merged := ex.vc.mergeHeaps([]*Heap{after, before}, []string{gD, "true"})
+		ex.cur = &blockState{heap: merged, guard: saveGuard, ghosts: ex.cur.ghosts}
 	}
 }
 
@@ -1556,6 +1625,8 @@ func (ex *Exec) run() {
 	ex.out = map[*ssa.BasicBlock]*blockState{}
 	ex.callOrd = map[string]int{}
 	ex.abstractedGuards = nil
+	ex.deferred = nil
+	ex.deferGuard = nil
 	ex.partialHavocs = nil
 	ex.hasDefer = false
 	ex.rets = nil
